@@ -10,6 +10,9 @@
    - the output vector `encoded` (and `decoded`) is kept REVERSED (head = last pushed byte): push = cons,
      pop = tail, `encoded[e_size - scan_i]` = element scan_i-1.  The public functions reverse at the end.
    - loops run on explicit fuel; exhaustion is [Err] (proved unreachable in proofs/LZ_*.v).
+   - for the extracted model's speed the loops carry the slice `&target[i..]` ([suf], [tsuf]) next to the index
+     [i], and the state keeps `self.reference.len()` as [refp_len] (a Vec knows its length); the proofs carry
+     suf = skipnN i tgt and refp_len = lenN refp.
    - the hash function is a parameter ([hash]); [encode]/[decode_full] instantiate it with [murmur64].
    - `(ht_size as f64 / 0.7) as u64` is modelled as floor(count*10/7) (equal to the f64 computation for
      count < 2^50: the quotient is never within 2^-52 relative distance below an integer). *)
